@@ -290,6 +290,8 @@ func (*BaseNode).SortChildren
   uses nodeModel
   detfunc comparator
   requires WF() && srtS() != nil && base(srtS()) == addr(n)
+  // the comparator is only ever handed two children of this node (whatever it requires of its arguments is owed for those)
+  requires [cmpPre] forall i int, j int {kid(srtS(), i), kid(srtS(), j)} :: (0 <= i && i < srtL() && 0 <= j && j < srtL()) ==> funpre(comparator, kid(srtS(), i), kid(srtS(), j))
   // head insertion: everything moves down by one
   callupdate ast.Node.SetNextSibling#1: sk(i) = (i == 0 ? current : sk(i - 1))
   callupdate ast.Node.SetNextSibling#1: sp(v) = (v == current ? 0 : sp(v) + 1)
